@@ -276,6 +276,14 @@ pub fn gen_header(rng: &mut Rng, cfg: &GenCfg, depth: usize) -> MHeader {
             h.rest.push((l, gen_value(rng, 0)));
         }
     }
+    if rng.chance(1, 4) {
+        // a registered extension parameter in one of the shapes such parameters take
+        let (l, v) = crate::common::gen_registered_pair(rng, 0);
+        let l = MLabel::Int(l as i64);
+        if !h.rest.iter().any(|(k, _)| *k == l) {
+            h.rest.push((l, v));
+        }
+    }
     h
 }
 
@@ -410,6 +418,13 @@ pub fn gen_key(rng: &mut Rng, cfg: &GenCfg) -> MKey {
         };
         k.params.push((l, v));
     }
+    if rng.chance(1, 4) {
+        let (l, v) = crate::common::gen_registered_pair(rng, 1);
+        let l = MLabel::Int(l as i64);
+        if !k.params.iter().any(|(k, _)| *k == l) {
+            k.params.push((l, v));
+        }
+    }
     k
 }
 
@@ -449,7 +464,18 @@ pub fn gen_claims(rng: &mut Rng, cfg: &GenCfg) -> MClaims {
     while names.len() < n {
         let nm = match rng.below(3) {
             0 => MRegP::Assigned(*rng.pick(&[-260i64, -259, -258, -257, 8, 9, 38, 39, 40])),
-            1 => MRegP::Private(if rng.chance(1, 4) { *rng.pick(&[i64::MIN, i64::MIN + 1, -(1i64 << 32), -(1i64 << 31) - 1, -65537, -65538]) } else { -65537 - rng.below(100) as i64 }),
+            1 => MRegP::Private(if rng.chance(1, 4) {
+                *rng.pick(&[
+                    i64::MIN,
+                    i64::MIN + 1,
+                    -(1i64 << 32),
+                    -(1i64 << 31) - 1,
+                    -65537,
+                    -65538,
+                ])
+            } else {
+                -65537 - rng.below(100) as i64
+            }),
             _ => MRegP::Text(["claim", "", "x"][rng.below(3)].to_string()),
         };
         if !names.contains(&nm) {
